@@ -90,6 +90,11 @@ var units = []unit{
 		only: []string{"WriteHeader", "Write", "maybeWriteHeader", "Status", "BytesWritten"},
 		imports: "Base.GoEff Base.GoExt", section: "Variable ans : nat -> oval.",
 		stateStructs: []string{"basicWriter"}, opaque: map[string][]string{"basicWriter": {"ResponseWriter", "tee"}}},
+	{out: "WriterSrc", pkgDir: ".", files: []string{"writer.go"}, only: []string{"Write", "WriteLevel"},
+		imports: "Base.GoEff Base.GoExt", section: "Variable ans : nat -> oval.",
+		stateStructs: []string{"multiLevelWriter", "FilteredLevelWriter", "LevelWriterAdapter"},
+		opaque: map[string][]string{"multiLevelWriter": {"writers"}, "FilteredLevelWriter": {"Writer"}, "LevelWriterAdapter": {"Writer"}},
+		externs: map[string]bool{"sentinel-errors": true}},
 }
 
 func main() {
@@ -299,6 +304,14 @@ func translateUnit(repo string, u unit) (g genOut, err error) {
 		for i := 0; i < st.NumFields(); i++ {
 			fv := st.Field(i)
 			if opq[fv.Name()] {
+				if sl, isSl := fv.Type().Underlying().(*types.Slice); isSl {
+					if _, isIface := sl.Elem().Underlying().(*types.Interface); !isIface {
+						return g, fmt.Errorf("opaque field %s.%s is not a slice of an interface type", sn, fv.Name())
+					}
+					p.stOpaque[sn][fv.Name()] = true
+					rf = append(rf, rfield{fv.Name(), "list N"}) // the identities of the elements
+					continue
+				}
 				if _, isIface := fv.Type().Underlying().(*types.Interface); !isIface {
 					return g, fmt.Errorf("opaque field %s.%s is not of interface type", sn, fv.Name())
 				}
@@ -825,6 +838,10 @@ type fnCtx struct {
 	selfT    string       // its struct name
 	needClk  bool
 	clkUsed  bool
+	selfByValue bool                  // value receiver: field stores would be invisible to the caller
+	opaqueVars  map[types.Object]string // local variables that hold an element of an opaque slice field: the field's name
+	namedRes    []*types.Var
+	elemOverride string               // Gallina type of the elements of the range being translated (opaque slices)
 }
 
 // the value returned by a state struct method: the result next to the receiver record
@@ -861,7 +878,7 @@ type exits struct {
 }
 
 func (p *pkgCtx) newFn(name string) *fnCtx {
-	return &fnCtx{p: p, names: map[types.Object]string{}, taken: map[string]bool{}, fname: name, locals: map[types.Object]bool{}, handles: map[types.Object]bool{}}
+	return &fnCtx{p: p, names: map[types.Object]string{}, taken: map[string]bool{}, fname: name, locals: map[types.Object]bool{}, handles: map[types.Object]bool{}, opaqueVars: map[types.Object]string{}}
 }
 
 func (f *fnCtx) nameOf(o types.Object) string {
@@ -926,8 +943,11 @@ func (p *pkgCtx) translateFunc(obj *types.Func) (txt string, nloops int, err err
 	var params []string
 	if fd.Recv != nil {
 		rt := sig.Recv().Type()
-		if _, isPtr := rt.(*types.Pointer); isPtr && stateStructName(rt) != "" {
+		if stateStructName(rt) != "" {
 			// a state struct: the receiver is the record of its fields, returned updated next to the result
+			if _, isPtr := rt.(*types.Pointer); !isPtr {
+				f.selfByValue = true // the callee works on a copy: only the call log may change
+			}
 			f.selfT = stateStructName(rt)
 			if len(fd.Recv.List) == 1 && len(fd.Recv.List[0].Names) == 1 {
 				f.self = p.info.Defs[fd.Recv.List[0].Names[0]]
@@ -969,7 +989,22 @@ func (p *pkgCtx) translateFunc(obj *types.Func) (txt string, nloops int, err err
 		}
 	}
 	recovers := false
-	if len(named) > 0 {
+	plainNamed := false
+	if len(named) > 0 && len(named) == sig.Results().Len() && !f.eff {
+		// named results without any defer: locals that start at their zero values; a bare return returns them
+		hasDefer := false
+		ast.Inspect(fd.Body, func(n ast.Node) bool {
+			if _, ok := n.(*ast.DeferStmt); ok {
+				hasDefer = true
+			}
+			return true
+		})
+		if !hasDefer {
+			plainNamed = true
+			f.namedRes = named
+		}
+	}
+	if len(named) > 0 && !plainNamed {
 		// only: one named error result assigned by the canonical deferred recover and by nothing else
 		if !(f.eff && len(named) == 1 && sig.Results().Len() == 1 && isErrorType(named[0].Type()) && len(stmts) > 0 && p.isRecoverDefer(stmts[0], named[0].Name())) {
 			fail("named results")
@@ -1017,7 +1052,14 @@ func (p *pkgCtx) translateFunc(obj *types.Func) (txt string, nloops int, err err
 			ex.ret = func(v string) string { return "eret tt" }
 		}
 	}
+	var namedInit []string
+	for _, v := range f.namedRes {
+		namedInit = append(namedInit, fmt.Sprintf("let %s : %s := %s in", f.nameOf(v), coqType(v.Type()), zeroOf(v.Type())))
+	}
 	body := f.block(stmts, ex)
+	if len(namedInit) > 0 {
+		body = strings.Join(namedInit, "\n") + "\n" + body
+	}
 	if recovers {
 		body = "recover_errors (\n" + indent(body, 1) + ")"
 	}
@@ -1357,6 +1399,17 @@ func (f *fnCtx) block(stmts []ast.Stmt, ex exits) string {
 		return f.store(s.X, val, rest, ex)
 	case *ast.ReturnStmt:
 		if len(s.Results) == 0 {
+			if len(f.namedRes) > 0 {
+				var ns []string
+				for _, v := range f.namedRes {
+					ns = append(ns, f.nameOf(v))
+				}
+				v := strings.Join(ns, ", ")
+				if len(ns) > 1 {
+					v = "(" + v + ")"
+				}
+				return ex.ret(v)
+			}
 			return ex.ret("")
 		}
 		if len(s.Results) == 1 && !ex.inLoop {
@@ -1451,6 +1504,13 @@ func (f *fnCtx) selfField(e ast.Expr) string {
 	return ""
 }
 
+func (f *fnCtx) elemTypeOf(elem types.Type) string {
+	if f.elemOverride != "" {
+		return f.elemOverride
+	}
+	return coqType(elem)
+}
+
 // s.f with f an opaque (interface-typed) field of the state receiver: the field name
 func (f *fnCtx) selfOpaque(e ast.Expr) string {
 	sel, ok := e.(*ast.SelectorExpr)
@@ -1512,7 +1572,7 @@ func (f *fnCtx) fromOval(v string, t types.Type) string {
 }
 
 // s.f.M(args) with f opaque: logged, answered by the environment
-func (f *fnCtx) opaqueCall(field, method string, e *ast.CallExpr) string {
+func (f *fnCtx) opaqueCall(field, method string, e *ast.CallExpr, first string) string {
 	if len(f.cond) > 0 {
 		fail("call through an opaque field under a short-circuit operator")
 	}
@@ -1520,6 +1580,9 @@ func (f *fnCtx) opaqueCall(field, method string, e *ast.CallExpr) string {
 		fail("call with ...")
 	}
 	var as []string
+	if first != "" {
+		as = append(as, first)
+	}
 	for _, a := range e.Args {
 		as = append(as, f.toOval(a))
 	}
@@ -1699,6 +1762,9 @@ func (f *fnCtx) store(lhs ast.Expr, val string, rest []ast.Stmt, ex exits) strin
 		return f.then(fmt.Sprintf("let %s := %s in", f.nameOf(o), val), "", func() string { return f.block(rest, ex) })
 	case *ast.SelectorExpr:
 		if fld := f.selfField(l); fld != "" {
+			if f.selfByValue {
+				fail("assignment to a field of a value receiver")
+			}
 			sn := f.nameOf(f.self)
 			return f.then(fmt.Sprintf("let %s := set_%s_%s %s %s in", sn, f.selfT, fld, sn, paren(val)), "", func() string { return f.block(rest, ex) })
 		}
@@ -1796,8 +1862,11 @@ func (f *fnCtx) assigned(nodes []ast.Node) []types.Object {
 				continue
 			}
 			ast.Inspect(n, func(n ast.Node) bool {
-				if id, ok := n.(*ast.Ident); ok && f.p.info.ObjectOf(id) == f.self {
-					mentioned = true
+				if id, ok := n.(*ast.Ident); ok {
+					o := f.p.info.ObjectOf(id)
+					if _, isOV := f.opaqueVars[o]; o == f.self || isOV {
+						mentioned = true // a call through an element of an opaque slice extends the receiver's call log
+					}
 				}
 				return true
 			})
@@ -2121,6 +2190,11 @@ func (f *fnCtx) loopSig(name string, lead string, consts, mods []types.Object) (
 		isMod[o] = true
 	}
 	for _, o := range consts {
+		if _, isOV := f.opaqueVars[o]; isOV {
+			ps = append(ps, fmt.Sprintf("(%s : N)", f.nameOf(o)))
+			args = append(args, f.nameOf(o))
+			continue
+		}
 		if !isMod[o] {
 			ps = append(ps, fmt.Sprintf("(%s : %s)", f.nameOf(o), coqType(o.Type())))
 			args = append(args, f.nameOf(o))
@@ -2239,6 +2313,24 @@ func (f *fnCtx) fuelFor(s *ast.ForStmt) string {
 }
 
 func (f *fnCtx) rangeStmt(s *ast.RangeStmt, rest []ast.Stmt, ex exits) string {
+	if of := f.selfOpaque(s.X); of != "" {
+		// the elements of an opaque slice field: their identities; the value variable may only be called through
+		if s.Tok != token.DEFINE {
+			fail("range with = instead of :=")
+		}
+		if id, ok := s.Value.(*ast.Ident); ok && id.Name != "_" {
+			o := f.p.info.ObjectOf(id)
+			f.opaqueVars[o] = of
+			f.locals[o] = true
+		}
+		rng := fmt.Sprintf("%s_%s %s", f.selfT, of, f.nameOf(f.self))
+		rvar := f.tmp("rng")
+		return f.then(fmt.Sprintf("let %s := %s in", rvar, rng), "", func() string {
+			f.elemOverride = "N"
+			defer func() { f.elemOverride = "" }()
+			return f.rangeBody(s, rvar, nil, rest, ex)
+		})
+	}
 	xt := f.p.info.TypeOf(s.X)
 	var elem types.Type
 	switch u := xt.Underlying().(type) {
@@ -2358,7 +2450,7 @@ func (f *fnCtx) rangeBody(s *ast.RangeStmt, rvar string, elem types.Type, rest [
 	body := f.block(s.Body.List, inner)
 	f.pre = savedPre
 	f.loops = append(f.loops, fmt.Sprintf("Fixpoint %s (*ORC*)(rng_ : list %s) %s%s {struct rng_} : %s (lres %s %s) :=\n  match rng_ with\n  | [] => %s\n  | %s :: rest_ =>\n%s\n  end.\n",
-		name, coqType(elem), keyParam, params, f.m("res"), f.resType, mty, exit, valName, indent(body, 2)))
+		name, f.elemTypeOf(elem), keyParam, params, f.m("res"), f.resType, mty, exit, valName, indent(body, 2)))
 	call := fmt.Sprintf("%s(*ORCA*) %s %s%s", name, rvar, keyArg, strings.Join(args, " "))
 	return f.afterLoop(call, mpat, rest, ex)
 }
@@ -2833,6 +2925,14 @@ func (f *fnCtx) expr(e ast.Expr) string {
 		}
 		fail("composite literal of %s", t)
 	case *ast.SelectorExpr:
+		if id, ok := e.X.(*ast.Ident); ok && f.p.u.externs["sentinel-errors"] {
+			if pn, isPkg := f.p.info.Uses[id].(*types.PkgName); isPkg {
+				if v, isVar := f.p.info.Uses[e.Sel].(*types.Var); isVar && isErrorType(v.Type()) {
+					// a package-level sentinel error of another package (io.ErrShortWrite): an opaque named value
+					return "Some (ErrNamed " + bytesLit(pn.Imported().Path()+"."+e.Sel.Name) + ")"
+				}
+			}
+		}
 		if fld := f.selfField(e); fld != "" {
 			return fmt.Sprintf("%s_%s %s", f.selfT, fld, f.nameOf(f.self))
 		}
@@ -2974,7 +3074,34 @@ func (f *fnCtx) call(e *ast.CallExpr) string {
 	}
 	if sel, ok := e.Fun.(*ast.SelectorExpr); ok {
 		if of := f.selfOpaque(sel.X); of != "" {
-			return f.opaqueCall(of, sel.Sel.Name, e)
+			return f.opaqueCall(of, sel.Sel.Name, e, "")
+		}
+		if id, ok := sel.X.(*ast.Ident); ok {
+			o := f.p.info.ObjectOf(id)
+			if of, isOV := f.opaqueVars[o]; isOV {
+				// an element of an opaque slice: the call carries its identity
+				return f.opaqueCall(of, sel.Sel.Name, e, "OVInt (Z.of_N "+f.nameOf(o)+")")
+			}
+			if f.self != nil && o == f.self {
+				// a method promoted from an embedded opaque field
+				if sl := f.p.info.Selections[sel]; sl != nil && sl.Kind() == types.MethodVal && len(sl.Index()) == 2 {
+					if st, ok := f.self.Type().Underlying().(*types.Struct); ok || true {
+						_ = st
+						var stt *types.Struct
+						t := f.self.Type()
+						if pt, isP := t.(*types.Pointer); isP {
+							t = pt.Elem()
+						}
+						stt, _ = t.Underlying().(*types.Struct)
+						if stt != nil && sl.Index()[0] < stt.NumFields() {
+							fn := stt.Field(sl.Index()[0]).Name()
+							if f.p.stOpaque[f.selfT][fn] {
+								return f.opaqueCall(fn, sel.Sel.Name, e, "")
+							}
+						}
+					}
+				}
+			}
 		}
 	}
 	fn := f.p.calledFunc(e)
